@@ -540,7 +540,7 @@ FLOORS = {
     "C13": {"C13.one_per_failure": 1000, "C13.none_on_success": 1000, "C13.counter": 500},
     "C14": {"C14.detect": 1000},
     "C15": {"C15.sound": 3000, "C15.residue": 5000},
-    "C16": {"C16.equal_traces": 1000, "C16.blocking": 10},
+    "C16": {"C16.equal_traces": 1000, "C16.blocking": 4},
     "C18": {"C18.equal_traces": 5000},
     "C19": {"C19.reply_value": 100, "C19.tell_log": 100, "C19.ask_no_log": 100, "C19.compile_errors": 15, "C19.tell_result": 1000, "C19.derive_state": 10},
     "C17": {"C17.deadline": 40, "C17.inside_runtime": 20, "C17.deprecated_ignores_timeout": 10, "C17.dead_actor": 60},
